@@ -533,23 +533,23 @@ package mail
 //@ at mail.msgWriter.writeBody mail.msgWriter.writeBody.writeFunc#1 after ghost[C03,C12:g] mw.pfail = (mw.pfail || r1 != nil)
 //@ at mail.msgWriter.writeBody mail.msgWriter.writeBody.writeFunc#2 after ghost[C03,C12:g] mw.pfail = (mw.pfail || r1 != nil)
 //@ func mail.msgWriter.writeBody (writeFunc, encoding)
-//@   requires[C12:producer-failure-reported] pfinv(mw)
-//@   ensures[C12:producer-failure-reported] pfinv(mw)
+//@   requires[C03,C12:producer-failure-reported] pfinv(mw)
+//@   ensures[C03,C12:producer-failure-reported] pfinv(mw)
 //@ func mail.msgWriter.writePart (part, charset)
-//@   requires[C12:producer-failure-reported] pfinv(mw)
-//@   ensures[C12:producer-failure-reported] pfinv(mw)
+//@   requires[C03,C12:producer-failure-reported] pfinv(mw)
+//@   ensures[C03,C12:producer-failure-reported] pfinv(mw)
 //@ func mail.msgWriter.addFiles (files, isAttachment)
-//@   requires[C12:producer-failure-reported] pfinv(mw)
-//@   ensures[C12:producer-failure-reported] pfinv(mw)
-//@   loop 1 invariant[C12:producer-failure-reported] pfinv(mw)
-//@   loop 2 invariant[C12:producer-failure-reported] pfinv(mw)
-//@   loop 3 invariant[C12:producer-failure-reported] pfinv(mw)
+//@   requires[C03,C12:producer-failure-reported] pfinv(mw)
+//@   ensures[C03,C12:producer-failure-reported] pfinv(mw)
+//@   loop 1 invariant[C03,C12:producer-failure-reported] pfinv(mw)
+//@   loop 2 invariant[C03,C12:producer-failure-reported] pfinv(mw)
+//@   loop 3 invariant[C03,C12:producer-failure-reported] pfinv(mw)
 //@ at mail.msgWriter.writeMsg entry ghost[C03,C12:g] mw.pfail = false
 //@ func mail.msgWriter.writeMsg (msg)
-//@   ensures[C12:producer-failure-reported] pfinv(mw)
-//@   loop 1 invariant[C12:producer-failure-reported] pfinv(mw)
-//@   loop 3 invariant[C12:producer-failure-reported] pfinv(mw)
-//@   loop 4 invariant[C12:producer-failure-reported] pfinv(mw)
+//@   ensures[C03,C12:producer-failure-reported] pfinv(mw)
+//@   loop 1 invariant[C03,C12:producer-failure-reported] pfinv(mw)
+//@   loop 3 invariant[C03,C12:producer-failure-reported] pfinv(mw)
+//@   loop 4 invariant[C03,C12:producer-failure-reported] pfinv(mw)
 
 // ---------------------------------------------------------------------------
 // C06  Recipients are exactly To+Cc+Bcc, and Bcc stays hidden
